@@ -40,8 +40,12 @@ RULE = (
     "of insertions and a fully decorated rendering with all its character prefixes on <=3 points; corruptions: for every point of every "
     "document (<=4 quick, <=5 thorough): drop field k, replace field k by one of 3 non-numbers, drop ')', drop '('; long: chains of 1e3..1e4 "
     "points, 1500 points before / inside a split, staircases of 40..300 nested splits, and every <=3/4-point document with each run of points "
-    "stretched x60 under a recursion limit lowered to +48 frames. Non-trivial = every case (each holds >= 1 point or is a truncation); "
-    "distinct = distinct abstract document / distinct prefix."
+    "stretched x60 under a recursion limit lowered to +48 frames; sweeps: a branch of EVERY length 1..1200 at the default recursion limit "
+    "(thorough: in 3 positions, and every 25 up to 5000) and every length 1..250 x 3 positions under the lowered limit, a 700-point document "
+    "shifted by 0..71 leading blanks, staircases of every depth 1..200 (400) x 3 orientations, one split of every width 2..128; histories: every ordered pair / triple of conversions over a small alphabet of well-formed (both labels), "
+    "truncated and corrupted documents x 3 API rotations with one shared converter instance, every result judged when returned, re-inspected "
+    "after the later calls and tested for shared storage; every returned tree is additionally retained and re-inspected two cases later. "
+    "Non-trivial = every case (each holds >= 1 point or is a truncation); distinct = distinct abstract document / prefix / call sequence."
 )
 ASSUMPTIONS = [
     "the reference table is emitted by the document generator (pure Python), independent of the library's lexer/parser/AST",
@@ -50,7 +54,8 @@ ASSUMPTIONS = [
     "label Axon -> type 2, Dendrite -> type 3 (SWC convention, case-insensitive label)",
     "comment positions the parser rejects loudly (inside a point/label/colour marker, outside the tree, right after the label) are outside the "
     "alphabet: there the oracle only demands 'error or the unchanged table'; a 5-field point and CR-LF line ends are observed, not judged",
-    "file APIs are exercised through real files in a private temporary directory",
+    "file APIs are exercised through real files in one private temporary directory per run (tmpfs when available), one file per worker process",
+    "token prefixes are deduplicated by a chained 64-bit hash (PYTHONHASHSEED=0 set by ./check)",
 ]
 
 LABELS = (("Axon", 2), ("Dendrite", 3), ("axon", 2), ("DENDRITE", 3))
@@ -313,31 +318,44 @@ def diff_kind(got, want, tree) -> tuple[str, str]:
     return "", ""
 
 
-class Api:
-    """The three ways in.  File APIs write the text into a private temporary directory."""
+_CONVERTER = None
+_TMP = {"dir": None, "pid": None}
 
-    def __init__(self):
-        self.dir = None
+
+def _tmpdir() -> str:
+    """One private scratch directory per run: created by the process that builds the spaces (forked workers inherit it and
+    write one file each, named by their pid); removed when that process exits."""
+    if _TMP["dir"] is None or not os.path.isdir(_TMP["dir"]):
+        import atexit
+
+        shm = "/dev/shm"  # file-system calls on the scratch disk cost milliseconds under load; tmpfs when available
+        d = tempfile.mkdtemp(prefix="c15_", dir=None if os.environ.get("TMPDIR") or not (os.path.isdir(shm) and os.access(shm, os.W_OK)) else shm)
+        _TMP["dir"], _TMP["pid"] = d, os.getpid()
+        atexit.register(lambda d=d, pid=os.getpid(): shutil.rmtree(d, ignore_errors=True) if os.getpid() == pid else None)
+    return _TMP["dir"]
+
+
+class Api:
+    """The three ways in.  File APIs go through a real file in the run's scratch directory."""
 
     def close(self):
-        if self.dir is not None:
-            shutil.rmtree(self.dir, ignore_errors=True)
-            self.dir = None
+        pass
 
     def call(self, api: str, text: str):
+        global _CONVERTER
         from swcgeom.transforms.neurolucida_asc import NeurolucidaAscToSwc
 
         if api == "from_stream":
             return NeurolucidaAscToSwc.from_stream(io.StringIO(text))
-        if self.dir is None:
-            self.dir = tempfile.mkdtemp(prefix="c15_")
-        path = os.path.join(self.dir, "doc.asc")
+        path = os.path.join(_tmpdir(), f"doc_{os.getpid()}.asc")
         with open(path, "w", newline="") as f:
             f.write(text)
         if api == "convert":
             return NeurolucidaAscToSwc.convert(path)
         if api == "__call__":
-            return NeurolucidaAscToSwc()(path)
+            if _CONVERTER is None:
+                _CONVERTER = NeurolucidaAscToSwc()  # one instance per worker process, reused by every case
+            return _CONVERTER(path)
         raise ValueError(api)
 
 
@@ -589,12 +607,23 @@ def check_corrupt(case, R):
 # --------------------------------------------------------------------------- space 4: long branches, deep nesting, lowered recursion limit
 
 
-def staircase(depth: int, width: int = 1):
-    """`depth` nested splits; at every level: `width` points, then ( <one point> | <next level> | <empty> )."""
+def staircase(depth: int, pos: int = 1, width: int = 1):
+    """`depth` nested splits; at every level: `width` points, then a split of three alternatives: the next level at
+    position `pos`, a single point and an empty alternative in the other two positions."""
     body = (width, None)
     for _ in range(depth):
-        body = (width, ((1, None), body, None))
+        alts = [(1, None), None]
+        alts.insert(pos, body)
+        body = (width, tuple(alts))
     return body
+
+
+def fan(n: int):
+    """One split with n alternatives: 1 point, empty, 2 points, 1 point, empty, ..."""
+    return (2, tuple((None if j % 3 == 1 else ((2 if j % 3 == 2 else 1), None)) for j in range(n)))
+
+
+STAIR_POS = {"staircase-first": 0, "staircase": 1, "staircase-last": 2}
 
 
 def stretch(body, f: int):
@@ -608,11 +637,16 @@ def long_cases(tier):
     yield ("before-split", 1500)
     yield ("in-alternative", 1500)
     yield ("staircase", 40)
-    yield ("staircase", 150)
+    for kind in STAIR_POS:
+        yield (kind, 150)
+    yield ("fan", 5)
+    yield ("fan", 200)
     if tier == "thorough":
         yield ("chain", 10000)
         yield ("before-split", 6000)
-        yield ("staircase", 300)
+        for kind in STAIR_POS:
+            yield (kind, 300)
+        yield ("fan", 2000)
     hi = 3 if tier == "quick" else 4
     for b in docs_upto(0, hi):
         yield ("low-limit", b)
@@ -625,8 +659,10 @@ def long_body(kind, n):
         return (n, ((n // 3, None), None, (n // 3, ((2, None), (1, None)))))
     if kind == "in-alternative":
         return (2, (None, (n, ((n, None), (3, None))), (1, None)))
-    if kind == "staircase":
-        return staircase(n)
+    if kind in STAIR_POS:
+        return staircase(n, STAIR_POS[kind])
+    if kind == "fan":
+        return fan(n)
     raise ValueError(kind)
 
 
@@ -649,7 +685,7 @@ def check_long(case, R):
                     R.fail(kd, f"stretched document under lowered recursion limit: {why}", f"{kd}:low-limit")
             return
         body = long_body(kind, arg)
-        d = Doc(body, LABELS[0] if kind != "staircase" else LABELS[1])
+        d = Doc(body, LABELS[0] if kind not in STAIR_POS else LABELS[1])
         R.state(kind, arg)
         R.outcome(kind, len(d.rows))
         lex, inner = lexemes(d)
@@ -665,6 +701,160 @@ def check_long(case, R):
         api.close()
 
 
+# --------------------------------------------------------------------------- space 5: call histories
+
+
+APIS = ("from_stream", "__call__", "convert")
+
+
+def npoints(body) -> int:
+    return body[0] + sum(npoints(a) for a in (body[1] or ()) if a is not None)
+
+
+def history_alphabet(pts_ok: int, pts_faulty: int, nalts=(2, 3)):
+    """Items (kind, body, label index): well-formed documents under both labels, and two faulty renderings."""
+    items = []
+    for p in range(1, pts_ok + 1):
+        for b in bodies(p, nalts):
+            items.append(("ok", b, 0))
+            items.append(("ok", b, 1))
+            if p <= pts_faulty:
+                items.append(("truncated", b, 0))
+                items.append(("corrupted", b, 1))
+    return items
+
+
+def gen_histories(tier):
+    if tier == "quick":
+        pair_items, tri_items = history_alphabet(2, 2, (2,)), history_alphabet(1, 1, (2,))
+    else:
+        pair_items, tri_items = history_alphabet(2, 2), history_alphabet(2, 1, (2,))
+    for rot in range(3):
+        for a in pair_items:
+            for b in pair_items:
+                yield (rot, (a, b))
+    for rot in range(3):
+        for a in tri_items:
+            for b in tri_items:
+                for c in tri_items:
+                    yield (rot, (a, b, c))
+
+
+def check_history(case, R):
+    """Conversions one after the other in one process (shared converter instance for __call__): every result is
+    judged when returned AND re-inspected after all later calls; results must not share storage; a failed
+    conversion must not disturb the next one."""
+    from mc import build
+
+    rot, seq = case[0], case[1]
+    R.state(case)
+    api = Api()
+    live = []
+    try:
+        for k, item in enumerate(seq):
+            kind, body, li = item[0], item[1], item[2]
+            how = APIS[(k + rot) % 3]
+            d = Doc(body, LABELS[li])
+            if kind == "ok":
+                ok, tree = R.impl(how, api.call, how, join(d.toks))
+                if not ok:
+                    continue
+                kd, why = diff_kind(table_of(tree), expected(d.rows, d.typ), tree)
+                if kd:
+                    R.fail(kd, f"call {k + 1} of {len(seq)} ({how}) after {[s[0] for s in seq[:k]]}: {why}\n document: {_short(join(d.toks))}",
+                           f"{kd}:history:" + ("first-call" if k == 0 else "after-" + seq[k - 1][0]))
+                else:
+                    live.append((k, d, tree))
+            elif kind == "truncated":
+                must_reject(R, api, how, join(d.toks[:-1]), "truncation", "accepted:truncation:history")
+            else:
+                o = d.points[-1]
+                must_reject(R, api, how, join(d.toks[: o + 2] + ["x"] + d.toks[o + 3 :]), "corruption:garbage-field2", "accepted:corruption:history")
+        R.outcome([s[0] for s in seq], len(live))
+        for k, d, tree in live[:-1]:
+            kd, why = diff_kind(table_of(tree), expected(d.rows, d.typ), tree)
+            if kd:
+                R.fail("history:" + kd, f"result of call {k + 1} changed after the later calls: {why}", f"history:result-changed-by-later-call:{kd}")
+        for i in range(len(live)):
+            for j in range(i + 1, len(live)):
+                why = build.independent(live[i][2], live[j][2])
+                R.check(not why, "history:shared-storage", lambda: f"results of calls {live[i][0] + 1} and {live[j][0] + 1}: {why}")
+    finally:
+        api.close()
+
+
+# --------------------------------------------------------------------------- space 6: size sweeps
+
+
+def gen_sweeps(tier):
+    """Every branch length over a range that crosses the recursion limit (default and lowered), the long run placed
+    in three positions; every alignment of a long document against power-of-two read boundaries."""
+    top = 1200
+    for n in range(1, top + 1):
+        yield ("chain", n, 0)
+    if tier == "thorough":
+        for n in range(top + 25, 5001, 25):
+            yield ("chain", n, 0)
+        for n in range(1, top + 1):
+            yield ("before-split", n, 0)
+            yield ("in-alternative", n, 0)
+    else:
+        for n in range(900, top + 1, 10):
+            yield ("before-split", n, 0)
+            yield ("in-alternative", n, 0)
+    for n in range(1, 251):
+        for shape in ("chain", "before-split", "in-alternative"):
+            yield (shape, n, 1)
+    for n in range(1, 201 if tier == "quick" else 401):
+        for kind in STAIR_POS:
+            yield (kind, n, 0)
+    for n in range(2, 129):
+        yield ("fan", n, 0)
+    for pad in range(0, 72):
+        yield ("pad", pad, 0)
+
+
+def sweep_body(shape, n):
+    if shape == "chain":
+        return (n, None)
+    if shape == "before-split":
+        return (n, ((1, None), None, (2, None)))
+    if shape == "in-alternative":
+        return (1, (None, (n, ((1, None), (1, None))), (1, None)))
+    if shape in STAIR_POS:
+        return staircase(n, STAIR_POS[shape])
+    if shape == "fan":
+        return fan(n)
+    raise ValueError(shape)
+
+
+def check_sweep(case, R):
+    shape, n, low = case[0], case[1], case[2]
+    R.state(case)
+    api = Api()
+    if shape == "pad":
+        d = Doc((700, None), LABELS[0])
+        text = " " * n + join(d.toks, "min")
+        for how in ("from_stream", "convert"):
+            must_convert(R, api, how, text, d.rows, d.typ, "sweep:pad", "long")
+        api.close()
+        R.outcome("pad", len(text) // 4096)
+        return
+    d = Doc(sweep_body(shape, n), LABELS[n % 4])
+    text = join(d.toks)
+    R.outcome(shape, low, n // 100)
+    if low:
+        R.attempt(api.call, "from_stream", "( (Axon) (1 2 3 4) ( (1 2 3 4) | ) )")
+        with recursion_limit(LOW_EXTRA):
+            ok, tree = R.impl("from_stream(low recursion limit)", api.call, "from_stream", text)
+        if ok:
+            kd, why = diff_kind(table_of(tree), expected(d.rows, d.typ), tree)
+            if kd:
+                R.fail(kd, f"{shape} of {n} points under lowered recursion limit: {why}", f"{kd}:sweep:low-limit")
+    else:
+        must_convert(R, api, "from_stream", text, d.rows, d.typ, f"sweep:{shape}", "long")
+
+
 # --------------------------------------------------------------------------- spaces
 
 
@@ -674,7 +864,8 @@ def spaces(tier, seed):
     else:
         g_wide, g_max, lex_wide, lex_max, cor_max = 4, 6, 3, 4, 5
     alts = "2-4 alternatives up to {} points, 2-3 up to {}"
-    return [
+    _tmpdir()  # before the workers fork
+    out = [
         Space.of("grammar", lambda: docs_upto(g_wide, g_max), check_grammar,
                  bounds={"points": g_max, "alternatives": alts.format(g_wide, g_max), "nesting_depth": "unbounded (<= points)",
                          "labels": [l for l, _ in LABELS], "apis": ["from_stream", "convert", "__call__"],
@@ -692,7 +883,22 @@ def spaces(tier, seed):
                  bounds={"points": cor_max, "alternatives": "2-3", "per_point": "drop field 1-4, 3 non-numbers x field 1-4, drop ')', drop '('; "
                          "extra 5th field observed only"}),
         Space.of("long", lambda: long_cases(tier), check_long,
-                 bounds={"chains": [1000, 1500, 3000] + ([10000] if tier == "thorough" else []), "staircase_depths": [40, 150] + ([300] if tier == "thorough" else []),
+                 bounds={"chains": [1000, 1500, 3000] + ([10000] if tier == "thorough" else []), "staircase_depths": [40, 150] + ([300] if tier == "thorough" else []), "staircase_descends_in": "first / middle / last alternative",
+                         "fan_alternatives": [5, 200] + ([2000] if tier == "thorough" else []),
                          "low_limit": {"extra_frames": LOW_EXTRA, "stretch": STRETCH, "documents_up_to_points": 3 if tier == "quick" else 4}},
                  case_timeout=300.0),
+        Space.of("histories", lambda: gen_histories(tier), check_history,
+                 bounds={"pairs": "all ordered pairs over {documents <= 2 points, " + ("2" if tier == "quick" else "2-3") + " alternatives} x {Axon ok, Dendrite ok, truncated, corrupted}",
+                         "triples": "all ordered triples over {documents <= 1 point, 2 alternatives} x 4 kinds" if tier == "quick" else
+                         "all ordered triples over {documents <= 2 points, 2 alternatives} x 2 labels + {documents <= 1 point} x 2 faults",
+                         "api_of_call_k": "APIS[(k + rot) % 3], rot in 0..2"}),
+        Space.of("sweeps", lambda: gen_sweeps(tier), check_sweep,
+                 bounds={"default_limit": "chain: every length 1..1200" + (" and every 25 up to 5000; before-split / in-alternative: every length 1..1200"
+                                                                          if tier == "thorough" else "; before-split / in-alternative: every 10 in 900..1200"),
+                         "lowered_limit": f"+{LOW_EXTRA} frames: every length 1..250 x 3 positions", "pad": "700-point chain, 0..71 leading blanks (crosses 4096/8192/16384)",
+                         "nesting": "staircases of every depth 1.." + ("200" if tier == "quick" else "400") + " descending in the first / middle / last alternative",
+                         "alternatives": "one split with every number of alternatives 2..128"}),
     ]
+    for sp in out:
+        sp.auto_retain = True  # every tree returned through R.impl is re-inspected after the next two cases of the worker
+    return out
